@@ -1,4 +1,9 @@
-# Registry of checks: property -> units (harness dir, file prefixes, test name, shards, timeouts).
+# Registry of checks. Each property lives in its OWN file /verif/registry.d/Cnn.py which does
+#   PROPS["Cnn"] = dict(level=..., level_text=..., level_note=..., technique=..., rule=..., units=[...], ...)
+# (PROPS, HARNESS_PKG and SHARED_PKGS are predefined when the file is executed). One file per property means
+# builders never rewrite each other's entries. Do not add entries to this file.
+import glob, os
+
 # harness dir -> package directory inside /repo that the *_test.go files are overlaid into.
 HARNESS_PKG = {
     "t_table": "internal/pkg/table",
@@ -14,336 +19,96 @@ HARNESS_PKG = {
 # plain packages injected at /repo/internal/verif/<name> (import github.com/osrg/gobgp/v4/internal/verif/<name>)
 SHARED_PKGS = ["vlib", "wire", "gen", "refmodel"]
 
-PROPS = {
-    "C13": dict(
-        level="exploration",
-        level_text="Differential runtime monitor: the compiled matchers (per matcher and through Condition.Evaluate, all three options, after random "
-                   "edit sequences) are executed on thousands of pattern lists x communities and compared with Go's regexp on the canonical text. "
-                   "Exploration is the right level: the pattern space is infinite, the grammar is aimed at the compiler's recognisers and their near misses.",
-        level_note="Trusts Go's regexp as the meaning of a pattern and String() as canonical text; patterns outside the generator's grammar are not covered.",
-        technique="runtime differential monitor (compiled matcher vs regexp.MatchString) over generated pattern lists, communities and edit sequences",
-        rule="case = one pattern list (1-4 patterns drawn from the grammar of compiler-recognised shapes and near misses, plus 0-2 random "
-             "Append/Remove/Replace edits) probed with ~70 communities per matcher and 12 routes x any/all/invert; non-trivial iff at least one "
-             "pattern was promoted to a non-regexp matcher mode; distinct by (matcher-mode sequence, pattern list with numbers abstracted)",
-        assumptions=["Go's regexp package is the reference semantics of a configured pattern",
-                     "canonical text of a community is AS:local in decimal; of an extended community its String()",
-                     "only transitive extended communities take part in matching (RFC 7153), as gobgp documents"],
-        must_count=["matcher_evals", "condition_evals", "edits"],
-        units=[dict(name="table", harness="t_table", files=["common_", "c13_"], run="TestVerifC13",
-                    shards=dict(quick=16, thorough=16), timeout_s=dict(quick=600, thorough=3600))],
-    ),
-}
-
-PROPS["C01"] = dict(
-    level="exploration",
-    level_text="The whole daemon runs in virtual time (testing/synctest) against 3-5 scripted speakers of mixed kinds; PRNG histories of 40-160 events "
-               "(announce, replace, withdraw, duplicate withdraw, session flap, re-establish, API add/delete, slow reader on/off, clock ticks) are "
-               "executed and, at exact quiescence, everything each peer has been sent (decoded from the bytes written to its connection and applied in "
-               "order) is compared with a fresh ADJ_OUT evaluation. Exploration: histories x interleavings are sampled, not enumerated.",
-    level_note="Trusts gobgp's own UPDATE parser on the receiving side and ListPath(ADJ_OUT) (fresh filterpath/export evaluation over the current table) "
-               "as the reference of what should be advertised; that the Loc-RIB itself is right is C02/C03.",
-    technique="runtime monitor: per-peer accumulated wire view vs fresh ADJ_OUT evaluation at exact quiescence (synctest.Wait) over PRNG event histories in virtual time",
-    rule="case = one history (3-5 peers of kinds eBGP / two sessions to one AS / iBGP / RR client / RS client, 40-160 events, compared every 5-20 events); "
-         "a comparison is non-trivial iff >=1 UPDATE reached that peer since the previous comparison; distinct by (peer kind, add-path, event-kind multiset hash)",
-    assumptions=["net.Pipe transports (no kernel buffering): back-pressure and coalescing are more frequent than on TCP, never less",
-                 "hold time 0 on all sessions (no keepalives)"],
-    must_count=["quiescent_comparisons", "comparisons_after_updates", "addpath_comparisons", "ev_announce", "ev_withdraw", "ev_flap", "ev_reestablish", "ev_burst"],
-    min_nontrivial=20,
-    units=[dict(name="sim", harness="t_server", files=["sim_", "c01_"], run="TestVerifC01",
-                shards=dict(quick=16, thorough=16), timeout_s=dict(quick=1800, thorough=10800))],
-)
-
-# C19 (function-level half): coverage counters that must be non-zero, one per message type / subtype / PDU /
-# command body / flavour the property quantifies over (a type with zero hits makes the run inconclusive).
-_C19_MRT = ["TABLE_DUMPv2/PEER_INDEX_TABLE", "TABLE_DUMPv2/GEO_PEER_TABLE", "TABLE_DUMPv2/RIB_GENERIC", "TABLE_DUMPv2/RIB_GENERIC_ADDPATH"] + \
-    ["TABLE_DUMPv2/RIB_%s_%s%s" % (a, c, x) for a in ("IPV4", "IPV6") for c in ("UNICAST", "MULTICAST") for x in ("", "_ADDPATH")] + \
-    ["BGP4MP/STATE_CHANGE", "BGP4MP/STATE_CHANGE_AS4"] + \
-    ["BGP4MP/MESSAGE%s%s%s" % (a, l, x) for a in ("", "_AS4") for l in ("", "_LOCAL") for x in ("", "_ADDPATH")]
-_C19_FLAVOURS = ["v2/default", "v3/default", "v4/default", "v5/default", "v5/frr4", "v5/frr5", "v5/cumulus", "v5/cumulus-literal", "v6/default"] + \
-    ["v6/frr%s" % v for v in ("6", "7", "7.1", "7.2", "7.3", "7.4", "7.5", "8", "8.1", "8.2")]
-_C19_ZBODIES = ["unknownBody", "HelloBody", "redistributeBody", "interfaceUpdateBody", "interfaceAddressUpdateBody", "routerIDUpdateBody", "IPRouteBody",
-                "lookupBody", "RegisteredNexthop", "NexthopRegisterBody", "NexthopUpdateBody", "labelManagerConnectBody", "GetLabelChunkBody",
-                "releaseLabelChunkBody", "vrfLabelBody"]
-_C19_MUST = (
-    ["rtr_hostile_inputs", "rtr_reserialized", "rtr_calls_ParseRTR"] +
-    ["rtr_rt_" + n for n in ("serial_notify", "serial_query", "reset_query", "cache_response", "ipv4_prefix", "ipv6_prefix", "end_of_data", "cache_reset", "error_report")] +
-    ["bfd_hostile_inputs", "bfd_rt", "bfd_result_ok", "bfd_accepted_remarshaled"] +
-    ["bmp_hostile_inputs", "bmp_trailing_differentials", "bmp_split_clean_streams", "bmp_split_scanner_runs", "bmp_accepted_reserialized", "bmp_rt_timestamp_checked"] +
-    ["bmp_rt_" + n for n in ("route_monitoring", "statistics_report", "peer_up", "initiation", "termination", "route_mirroring")] +
-    ["bmp_rt_peer_down_r%d" % i for i in range(1, 7)] +
-    ["bmp_direct_%s.ParseBody" % n for n in ("BMPRouteMonitoring", "BMPStatisticsReport", "BMPPeerDownNotification", "BMPPeerUpNotification", "BMPInitiation", "BMPTermination", "BMPRouteMirroring")] +
-    ["mrt_hostile_inputs", "mrt_split_clean_streams", "mrt_split_scanner_runs", "mrt_accepted_reserialized", "mrt_rt_BGP4MP_ET", "mrt_rt_bgp4mp_payload_form",
-     "mrt_rt_BGP4MP/MESSAGE*_ADDPATH(path-ids)", "mrt_direct_parseRibEntry"] +
-    ["mrt_rt_" + n for n in _C19_MRT if "ADDPATH" not in n or n.startswith("TABLE")] + ["mrt_parsebody_" + n for n in _C19_MRT] +
-    ["zapi_hostile_inputs", "zapi_rt_messages", "zapi_receive_differentials", "zapi_calls_parseMessage", "zapi_calls_ReceiveSingleMsg", "zapi_calls_Header.decodeFromBytes"] +
-    ["zapi_rt_header_v%d" % v for v in range(2, 7)] +
-    ["zapi_rt_" + n for n in ("HelloBody", "redistributeBody", "vrfLabelBody", "unknownBody", "NexthopRegisterBody", "NexthopUpdateBody", "IPRouteBody")] +
-    ["zapi_calls_%s.decodeFromBytes" % n for n in _C19_ZBODIES] +
-    ["zapi_hostile_flavour_" + f for f in _C19_FLAVOURS] + ["zapi_rt_flavour_" + f for f in _C19_FLAVOURS]
-)
-
-PROPS["C19"] = dict(
-    level="exploration",
-    level_text="Per-protocol runtime monitors over generated hostile inputs (pure random bytes and structure-aware mutations of valid serialised "
-               "messages: bit flips, length fields 0/1/max/+-1, truncation, TLV duplication, splicing) for every decoder entry point, ZAPI version "
-               "2..6 and software flavour, plus generator-driven round trips of every constructible message against independent reference encodings. "
-               "Exploration is the right level: the input space is all byte strings; the generators are aimed at length guards and framing.",
-    level_note="Function-level half of C19 (package Parse*/Serialize entry points). 'Does not loop' is decided by the shard watchdog (bounded time) and, "
-               "for the splitters, by a token budget on a real bufio.Scanner; 'does not read past the data' by exact-capacity buffers (a read past len "
-               "panics) and by a poison differential over the spare capacity / the bytes after the declared length. The BGP PDUs, NLRI and path "
-               "attributes inside MRT/BMP records are cargo taken from the bgp package (its codec is C04/C05). The daemon-emitted MRT/BMP records "
-               "half is a separate unit on the server simulator.",
-    technique="runtime monitors (panic guard, buffer-unchanged, over-read poison differential, bufio.SplitFunc contract, real bufio.Scanner runs, "
-              "stream-consumption accounting on an in-memory net.Conn) + round-trip / independent-reference-encoding oracle over generated messages",
-    rule="case = one hostile input fed to the entry points of its protocol (quick: rtr 6e4, bfd 4e4, bmp 1.2e5, mrt 1.2e5, zapi 2.4e5 cases; thorough 20x), "
-         "or one constructed message round-tripped; non-trivial iff a decoder was executed on it; distinct by (protocol, entry point, "
-         "version/flavour, message type, first error text with numbers stripped or ok)",
-    assumptions=["a value is 'constructible' when it is built through the package's constructors / fields with in-range, mutually consistent field values "
-                 "(e.g. RTR prefix length <= max length <= address bits, BMP TLV class matching its type code, 2-octet AS numbers in non-AS4 MRT records, "
-                 "BMP per-peer timestamps on the microsecond grid)",
-                 "request-only or response-only ZAPI layouts (interface*, routerID, lookup, labelManagerConnect, get/releaseLabelChunk, ZAPI v2-4 route "
-                 "messages) are not expected to round-trip; they are covered by the hostile-input monitors only",
-                 "representation slack accepted as equal: nil vs empty slices, fields documented as derived on serialise (lengths, counts, nexthop type "
-                 "from gate/ifindex, nexthop flag bits from label/weight/backup counts, prefix family from the address), BMP timestamps within 0.5 us",
-                 "allocation size is not monitored (not in the property text); the watchdog decides 'did not return' by a two-strike timeout"],
-    must_count=_C19_MUST,
-    units=[
-        dict(name="rtr", harness="t_rtr", files=["common_", "c19_"], run="TestVerifC19",
-             shards=dict(quick=4, thorough=8), timeout_s=dict(quick=600, thorough=3600)),
-        dict(name="bfd", harness="t_bfd", files=["common_", "c19_"], run="TestVerifC19",
-             shards=dict(quick=4, thorough=8), timeout_s=dict(quick=600, thorough=3600)),
-        dict(name="bmp", harness="t_bmp", files=["common_", "c19_"], run="TestVerifC19",
-             shards=dict(quick=8, thorough=16), timeout_s=dict(quick=600, thorough=3600)),
-        dict(name="mrt", harness="t_mrt", files=["common_", "c19_"], run="TestVerifC19",
-             shards=dict(quick=8, thorough=16), timeout_s=dict(quick=600, thorough=3600)),
-        dict(name="zebra", harness="t_zebra", files=["common_", "c19_"], run="TestVerifC19",
-             shards=dict(quick=8, thorough=16), timeout_s=dict(quick=600, thorough=5400)),
-    ],
-)
-
-PROPS["C04"] = dict(
-    level="exploration",
-    level_text="Generator-driven runtime monitor of the real Serialize/Parse/Len code: algebraic identities (parse∘serialise = id, "
-               "serialise∘parse fixpoint, Len = emitted = consumed) plus a differential against an independent RFC 4271/4760/7911 framing "
-               "reader. Exploration is the right level: the message space is infinite; the generator enumerates every constructible "
-               "capability, attribute and NLRI type with boundary-biased values under every option combination.",
-    level_note="Trusts the harness generator to build only structurally valid values (value classes gobgp cannot represent by design, e.g. "
-               "several key/value NLRI in one attribute or label stacks that overflow the one-octet NLRI length, are not generated); the "
-               "independent reader checks framing, not attribute semantics. MRT serialisation mode is not part of the statement and is not "
-               "exercised here.",
-    technique="runtime monitor over generated messages: round-trip/fixpoint identities, per-element Len/emit/consume agreement, "
-              "independent wire reader differential, and re-serialisation identities on parser-accepted mutants",
-    rule="case = one generated message x option set (3 of 4 cases), or one structure-aware mutant of a valid core-family message that the "
-         "parser accepts (1 of 4); non-trivial iff it parses and holds >=1 attribute/NLRI/capability; distinct by (type set, option set, "
-         "length bucket)",
-    assumptions=["the independent reader in harness/wire is a correct reading of RFC 4271 s4, RFC 4760 s3-5, RFC 7911 s3, RFC 8654",
-                 "nil vs empty slices, fields named Reserved, the PathAttribute.Length / extended-length flag / TunnelEncapTLV.Length / "
-                 "OpaqueNLRI.Length header caches and the IPv4-mapped form of an IPv4 next hop under an IPv6 AFI are representation, not content",
-                 "for parser-accepted hostile inputs gobgp may canonicalise once (only the fixpoint of serialise∘parse is claimed); cached "
-                 "header lengths of the parsed message are cleared before it is re-serialised"],
-    must_count=["kind_open", "kind_update", "kind_notification", "kind_refresh", "kind_keepalive", "wire_checked", "wire_mp_prefix_lists",
-                "attr_len_checks", "attr_consume_checks", "nlri_len_checks", "nlri_consume_checks", "cap_len_checks", "accepted_half_accepted_mutants",
-                "opt_addpath", "opt_as2", "opt_extmsg", "msgs_over_4096"]
-               + ["attr_type_%d" % t for t in (1, 2, 3, 4, 5, 6, 7, 8, 9, 10, 14, 15, 16, 17, 18, 22, 23, 25, 26, 29, 32, 40)]
-               + ["cap_code_%d" % c for c in (1, 2, 4, 5, 6, 64, 65, 69, 70, 71, 73, 75, 128)]
-               + ["family_" + f for f in ("ipv4-unicast", "ipv6-unicast", "ipv4-multicast", "ipv6-multicast", "ipv4-labelled-unicast",
-                                         "ipv6-labelled-unicast", "l3vpn-ipv4-unicast", "l3vpn-ipv6-unicast", "l3vpn-ipv4-multicast",
-                                         "l3vpn-ipv6-multicast", "l2vpn-vpls", "l2vpn-evpn", "rtc", "ipv4-encap", "ipv6-encap", "ipv4-flowspec",
-                                         "l3vpn-ipv4-flowspec", "ipv6-flowspec", "l3vpn-ipv6-flowspec", "l2vpn-flowspec", "opaque", "ls",
-                                         "ipv4-srpolicy", "ipv6-srpolicy", "ipv4-mup", "ipv6-mup")],
-    units=[dict(name="bgp", harness="t_bgp", files=["gen_", "c04_"], run="TestVerifC04",
-                shards=dict(quick=16, thorough=16), timeout_s=dict(quick=900, thorough=7200))],
-)
-
-PROPS["C05"] = dict(
-    level="exploration",
-    level_text="Hostile-input runtime monitor of every decoder entry point of pkg/packet/bgp: panics (recovered per call and keyed by the "
-               "gobgp function at the panic site), writes to the caller's buffer, an over-read differential (octets beyond the declared end "
-               "must not influence value or error), render/re-serialise of every value the daemon would go on using, an allocation bound on "
-               "a sample, and the driver's watchdog for hangs. Exploration is the right level: 'all byte strings' can only be sampled; the "
-               "productive part are structure-aware mutations of valid messages of every type under every option combination.",
-    level_note="Go is memory safe, so an out-of-bounds access is a panic, not silent corruption; reading beyond len within cap is covered by the "
-               "differential. Non-termination is judged by the driver's watchdog (two-strike rule). The real receive path of pkg/server is not "
-               "driven here (only the codec entry points it calls).",
-    technique="runtime monitor (recover, buffer compare, poison-suffix differential, render probes, MemStats delta) over random and "
-              "structure-aware mutated inputs; second unit under the race detector (checkptr, concurrent readers of one buffer)",
-    rule="case = one input (pure random, valid, or 1-2 structure-aware mutations of a generated valid message) x option set, fed to every "
-         "applicable entry point (message, header+body, per attribute, per NLRI family, per capability); an evaluation is one entry-point "
-         "call; non-trivial iff the decoder got past the first length check (a nested element decoded or a non-header error); distinct by "
-         "(entry point, first-error class or result type set)",
-    assumptions=["a value is 'used by the daemon' iff it is returned without error, or it is an UPDATE returned with an attribute-discard / "
-                 "treat-as-withdraw MessageError (pkg/server/fsm.go recvMessageWithError / handlingError)",
-                 "octets in the slice's spare capacity and octets behind the header-declared length are outside the declared message"],
-    must_count=["entry_ParseBGPMessage", "entry_ParseBGPMessage+next", "entry_ParseBGPBody", "entry_BGPHeader.DecodeFromBytes", "rendered_ParseBGPMessage",
-                "rendered_with_nonfatal_error", "alloc_samples", "class_random", "class_mutated1", "class_valid", "nontrivial_calls"]
-               + ["entry_attr%d" % t for t in (1, 2, 3, 4, 5, 6, 7, 8, 9, 10, 14, 15, 16, 17, 18, 22, 23, 25, 26, 29, 32, 40)] + ["entry_attrUnknown"]
-               + ["entry_cap%d" % c for c in (1, 2, 4, 5, 6, 64, 65, 69, 70, 71, 73, 75, 128)] + ["entry_capUnknown"]
-               + ["entry_nlri:" + f for f in ("ipv4-unicast", "ipv6-unicast", "ipv4-multicast", "ipv6-multicast", "ipv4-labelled-unicast",
-                                              "ipv6-labelled-unicast", "l3vpn-ipv4-unicast", "l3vpn-ipv6-unicast", "l3vpn-ipv4-multicast",
-                                              "l3vpn-ipv6-multicast", "l2vpn-vpls", "l2vpn-evpn", "rtc", "ipv4-encap", "ipv6-encap", "ipv4-flowspec",
-                                              "l3vpn-ipv4-flowspec", "ipv6-flowspec", "l3vpn-ipv6-flowspec", "l2vpn-flowspec", "opaque", "ls",
-                                              "ipv4-srpolicy", "ipv6-srpolicy", "ipv4-mup", "ipv6-mup")],
-    units=[dict(name="bgp", harness="t_bgp", files=["gen_", "c05_"], run="TestVerifC05",
-                shards=dict(quick=16, thorough=16), timeout_s=dict(quick=900, thorough=7200)),
-           dict(name="bgp_race", harness="t_bgp", files=["gen_", "c05_"], run="TestVerifC05", race=True, env={"VERIF_C05_RACE": "1"},
-                shards=dict(quick=16, thorough=16), timeout_s=dict(quick=1200, thorough=7200))],
-)
-
+PROPS = {}
 # properties not (yet) claimed, with the reason that goes into MANIFEST.not_applicable
 NOT_CLAIMED = {}
 
-PROPS["C14"] = dict(
+_here = os.path.dirname(os.path.abspath(__file__))
+for _f in sorted(glob.glob(os.path.join(_here, "registry.d", "C*.py"))):
+    with open(_f) as _fh:
+        exec(compile(_fh.read(), _f, "exec"), {"PROPS": PROPS, "HARNESS_PKG": HARNESS_PKG, "SHARED_PKGS": SHARED_PKGS, "NOT_CLAIMED": NOT_CLAIMED})
+
+PROPS["C15"] = dict(
     level="exploration",
-    level_text="Runtime monitor over generated AS paths: the real send path (UpdatePathAttrs2ByteAs/UpdatePathAggregator2ByteAs + Serialize) and the real "
-               "receive path of a 2-octet session (ParseBGPMessage with Use2ByteAS -> validateAsPathValueBytes, ValidateUpdateMsg, UpdatePathAttrs4ByteAs/"
-               "UpdatePathAggregator4ByteAs) are executed on every case; the wire bytes are judged by an independent RFC 4271/6793 walker and the "
-               "results by independent references for RFC 6793 4.2.2 (down-conversion) and 4.2.3 (reconstruction). Exploration is the right level: "
-               "the path space is infinite; the generator spans the shapes the segment arithmetic depends on (leading confederation run, leading SET, "
-               "255-member segments, SEQ/SET mixes, cut inside/at the edge of a segment, AS4_PATH longer than AS_PATH, confederation segments in AS4_PATH).",
-    level_note="Trusts the harness' reading of RFC 6793 4.2.2/4.2.3/6 and RFC 5065 counting; paths are compared up to the segmentation of adjacent "
-               "AS_SEQUENCE segments. The session itself (capability negotiation, fsm.twoByteAsTrans) is not run; the functions are called in the order fsm.go calls them.",
-    technique="runtime round-trip + differential monitor (independent wire walker, RFC 6793 reference reconstruction) over generated AS_PATH/AGGREGATOR and (AS_PATH, AS4_PATH) pairs",
-    rule="case = one AS_PATH (+ optional AGGREGATOR) sent to and re-learned from a 2-octet peer (60%), or one (AS_PATH, AS4_PATH) pair as delivered by a chain of OLD "
-         "speakers (prepend / aggregate / confederation hop) or generated independently (40%); a round-trip case is non-trivial iff AS4_PATH or AS4_AGGREGATOR was needed; "
-         "distinct by the sequence of (segment type, length class) of the path(s)",
-    assumptions=["RFC 6793 counting of AS numbers is RFC 4271 9.1.2.2 + RFC 5065 (SET = 1, confederation segments = 0)",
-                 "[SEQ a][SEQ b] and [SEQ a b] denote the same path",
-                 "AS_PATHs have the RFC 5065 shape: confederation segments only as a leading run"],
-    must_count=["roundtrip_paths", "roundtrip_with_as4", "pairs", "pairs_as4_longer", "pairs_with_prepended_part", "aggregators_as4", "as4_path_sent"],
-    units=[dict(name="table", harness="t_table", files=["common_", "c14_"], run="TestVerifC14",
-                shards=dict(quick=16, thorough=16), timeout_s=dict(quick=600, thorough=5400))],
+    level_text="Metamorphic two-run differential in virtual time (testing/synctest): run A = fresh daemon with policy program P1, 2-4 scripted speakers "
+               "(eBGP / one iBGP / route-server clients / mixed) announce 20-200 IPv4+IPv6 routes, the policy is changed to P2 through the management API, "
+               "the corresponding soft reset (ResetPeer soft in|out|both, one peer or all) or ROUTE-REFRESH from the speaker(s) follows, then the same reset "
+               "once more; run B = fresh daemon with P2 in force before the first route. At exact quiescence Loc-RIB (global and per route-server client, "
+               "path sets, attributes, best flag), ADJ_IN raw and with filtered flags, ADJ_OUT and every speaker's accumulated wire view must be identical; "
+               "in 30% of the pairs the speakers keep announcing/replacing/withdrawing from their own goroutines (with scheduler yields at gobgp's lock-free "
+               "points) while the change and/or the reset run and B is fed with the final route set. Exploration: (P1, P2, routes, reset, schedule) are sampled.",
+    level_note="Run B (gobgp itself under P2 from the start) is the reference: that a fresh evaluation applies the policy correctly is C10, that the "
+               "Loc-RIB picks the right best path is C03. Route timestamps are made irrelevant: all routes of a run arrive at one virtual instant and the "
+               "generated routes are totally ordered by the decision process (unique first AS per source, import prepend only of the left-most AS unless "
+               "always-compare-med). For a reset aimed at one peer the change is confined to that peer (per-client assignment of a route-server client, "
+               "or statements guarded by a neighbour set holding only that peer). A peer whose wire view already differs from gobgp's fresh ADJ_OUT "
+               "before the change (run A) or in run B (that is property C01, counted under precondition_*) is left out of the wire comparison.",
+    technique="runtime metamorphic monitor: state after (policy change + soft reset / route refresh) vs fresh daemon under the new policy, plus idempotence "
+              "monitor on the repeated reset (views unchanged, every UPDATE a plain re-advertisement), at exact quiescence in virtual time",
+    rule="case = one (topology, routes, P1, change, reset) pair: P1 = 6-7 defined sets per direction (prefix sets with mask ranges, neighbour, AS-path "
+         "single-AS forms + regexps, community), 4-7 policies x 1-3 statements per direction (conditions: the sets with any/all/invert, as-path-length, "
+         "community-count; actions accept/reject/continue + community add/remove/replace, MED set/+/-, local-pref, AS-path prepend, next-hop), "
+         "assignments global and per route-server client with either default; change kind in {assign-set, assign-add, assign-del, default-flip, "
+         "defset-add, defset-del, defset-replace, policy-add-stmt, policy-del-stmt} x {import, export, both}; non-trivial iff gobgp's own states under "
+         "P1 and under P2 on the same inputs differ on >=1 route; distinct by (changed-verdict pattern set, reset kind, change kind(s), racing)",
+    assumptions=["'the current policy' is what the management API reports after the change (AddDefinedSet with replace = the set now has the new members; "
+                 "AddPolicyAssignment appends; AddPolicy on an existing policy appends statements; DeletePolicy/DeleteDefinedSet without 'all' remove the named members)",
+                 "a repeated reset may re-send routes, but only as they are already held by the peer (no withdraw of a held route, no changed attributes, no new route)",
+                 "DeletePolicyAssignment(all), deleting sets/policies/statements entirely, ADD-PATH sessions, VRF/VPN families and locally originated routes are not generated"],
+    must_count=["nontrivial_pairs", "pairs_equal", "repeat_checks", "racing_cases", "routes_compared",
+                "reset_soft-in_one", "reset_soft-in_all", "reset_soft-out_one", "reset_soft-out_all", "reset_soft-both_all", "reset_route-refresh_one", "reset_route-refresh_all",
+                "change_assign-set_import", "change_assign-add_import", "change_assign-del_import", "change_default-flip_import", "change_defset-add_import",
+                "change_defset-del_import", "change_policy-add-stmt_import", "change_policy-del-stmt_import",
+                "change_assign-set_export", "change_assign-add_export", "change_assign-del_export", "change_default-flip_export", "change_defset-add_export",
+                "change_defset-del_export", "change_policy-add-stmt_export", "change_policy-del-stmt_export",
+                "pattern_in:accept->reject", "pattern_in:reject->accept", "pattern_in:attrs-changed", "pattern_out:accept->reject", "pattern_out:reject->accept",
+                "pattern_out:attrs-changed", "topology_plain", "topology_route_server", "topology_mixed"],
+    min_nontrivial=20,
+    units=[dict(name="sim", harness="t_server", files=["sim_", "c15_"], run="TestVerifC15",
+                shards=dict(quick=16, thorough=16), timeout_s=dict(quick=1200, thorough=10800))],
 )
 
-PROPS["C16"] = dict(
-    level="exploration",
-    level_text="Model-based runtime monitors. Unit 'table': ROATable is driven through random Add/Delete/DeleteAll(source) histories next to a "
-               "plain list of records; List/Info are compared with the list and 50 routes per set (all AS_PATH tail shapes, 2- and 4-octet AS) are "
-               "classified by ROATable.Validate, by RpkiValidationCondition.Evaluate (wired as pkg/server does: PolicyOptions.Validate = "
-               "roaTable.Validate) and by an RFC 6811 brute force over the list. Unit 'server': roaManager is driven with PDU sequences per cache "
-               "through its real event channel (white box, and over loopback TCP through gobgp's own tryConnect/established goroutines), with "
-               "disconnects, reconnects, lifetime expiry, AddServer/DeleteServer/SoftReset/Disable/Enable, and a whole BgpServer is driven through "
-               "AddRpki/ResetRpki/DeleteRpki and observed through ListRpkiTable/ListRpki/ListPath. Exploration: ROA sets x routes and PDU "
-               "histories are sampled, aimed at overlaps, equal prefixes, max-length edges, AS 0, duplicates, unknown withdrawals, session changes.",
-    level_note="The RTR reference keeps per cache a MUST set (announced, committed by End of Data, not withdrawn) and a MAY set for what RFC 8210 / the "
-               "property leave open (data learned before the router issued a Reset Query, data of an expired or hard-reset cache, operations of a "
-               "response cut short by a reset or disconnect); a table between the two is accepted. Lifetime expiry is produced by stopping a timer "
-               "gobgp armed and still holds pending, then invoking that timer's own callback; timers expire in arming order. The loopback caches are "
-               "harness code; v4-mapped IPv6 prefixes only appear in unit 'table'.",
-    technique="runtime model-based monitor: brute-force RFC 6811 reference over a record list (table unit); per-cache MUST/MAY record-set model compared "
-              "with ROATable.List / GetServers / ListRpkiTable / ListRpki / ListPath after every step of generated RTR histories (server unit)",
-    rule="table case = one ROA history (0-30 records aimed at, 1-3 sources) + 50 routes; non-trivial iff >=1 route has a covering record; distinct by "
-         "(record shape multiset, verdict signature). rtr case = one history of 8-48 steps over 1-3 caches (white box 60% / loopback TCP 40%); "
-         "non-trivial iff the table changed at least twice; distinct by (transport, step-kind sequence). api case = one BgpServer with 1-2 loopback "
-         "caches: load, routes, incremental updates, soft reset, DeleteRpki; distinct by trace",
-    assumptions=["origin AS as in RFC 6811 sec. 2: last AS of a path ending in AS_SEQUENCE; local AS for an empty path or one ending in confederation segments "
-                 "(only confederation-only paths are generated); NotFound for a path ending in AS_SET",
-                 "RTR: operations of one response take effect in the order sent, at End of Data at the latest; a new session id at End of Data flushes the "
-                 "cache's records; DeleteServer removes them; a record of cache A is independent of the same record announced by cache B",
-                 "where the property is silent the model accepts both outcomes: records learned before a Reset Query / reconnect / operator reset may stay "
-                 "or go; a cache away for its record lifetime may be flushed; a lifetime timer may never touch a cache that re-synchronised or was removed",
-                 "Enable/Disable/Reset/SoftReset take a bare address; they are only exercised when one configured cache has that address"],
-    must_count=["v_routes", "v_cover_1", "v_cover_many", "v_as0_covering", "v_as_match_but_too_long", "v_condition_evals", "v_shape_seq+set",
-                "v_shape_confed-seq-only", "v_shape_empty", "v_origin_4octet", "t_delete_unknown", "t_delete_all", "t_add_duplicate",
-                "compares", "compares_exact", "table_changes", "pdu_announce-v4", "pdu_announce-v6", "pdu_withdraw-v4", "pdu_withdraw-v6",
-                "pdu_cache-response", "pdu_end-of-data", "pdu_cache-reset", "pdu_serial-notify", "pdu_error-report", "step_new-session",
-                "ev_connected", "ev_disconnected", "ev_lifetime_expiry", "router_reset_queries", "mgmt_delete_server", "mgmt_SoftReset",
-                "api_table_compares", "api_listrpki_compares", "api_route_verdicts_covered", "api_DeleteRpki"],
-    min_nontrivial=100,
-    units=[dict(name="table", harness="t_table", files=["common_", "c16_"], run="TestVerifC16",
-                shards=dict(quick=16, thorough=16), timeout_s=dict(quick=600, thorough=3600)),
-           dict(name="server", harness="t_server", files=["c16_"], run="TestVerifC16",
-                shards=dict(quick=16, thorough=16), timeout_s=dict(quick=600, thorough=5400))],
-)
 
-PROPS["C11"] = dict(
-    level="exploration",
-    level_text="Runtime monitor with boundary sweeps: CreateUpdateMsgFromPaths is executed on generated change lists, every produced message is "
-               "serialised under the session options (as sendMessageloop does), decoded by an independent RFC 4271/4760/7911/8277/8950 reader and "
-               "applied to a pre-populated receiver table; the end state, the End-of-RIB markers and every message size are compared with a "
-               "reference that applies the changes one at a time. Exploration is the right level: the input space (lists x attribute sizes x "
-               "families x options) is unbounded; attribute sizes are swept so that single-route and filled messages land within 64 octets of the "
-               "4096/65535 limit and attribute value lengths cross 255/256.",
-    level_note="Function level only (the sender loop is checked by the session-level unit). Trusts the harness' own wire reader and size arithmetic; "
-               "2-octet-AS re-encoding, MRT options and families other than IPv4/IPv6 unicast, labelled unicast and MPLS VPN are not generated. "
-               "A route that cannot fit counts as 'reported' iff it is in a produced message whose Serialize returns an error (what the sender logs).",
-    technique="runtime monitor: independent wire reader + receiver table vs one-at-a-time reference, size and End-of-RIB checks, panic guard",
-    rule="case = one change list (kinds: mix of announce/withdraw/End-of-RIB/nil over 1-3 families with repeated keys; single routes whose own "
-         "message is limit+d, |d|<=64; groups of equal-attribute routes whose NLRI octets fill k messages +-64; oversize routes learned over an "
-         "extended-message session packed for 4096; large lists up to 10k (quick) / 50k (thorough) prefixes) x per-family ADD-PATH "
-         "none/receive/send/both x extended message on/off x forced equal attribute hashes x several local path ids per prefix; "
-         "non-trivial iff >=2 messages were produced or a message/single route is within 64 octets of the limit or a key is repeated; distinct by "
-         "(kind, families, ADD-PATH families, extended, message-count bucket, near-limit flags, repeat pattern, forced hash)",
-    assumptions=["a receiver distinguishes routes by (family, NLRI without labels, path identifier as present on the wire)",
-                 "a message whose Serialize fails is dropped and logged by the sender; nothing else reports an unsendable route",
-                 "several identical End-of-RIB markers of one family in one list may be merged into one"],
-    must_count=["messages_sent", "messages_within_64_of_limit", "messages_with_shared_attributes", "cases_with_repeated_key",
-                "cases_with_2plus_messages", "eor_out", "cases_extended_message", "family_cases_addpath_on", "family_cases_addpath_off"],
-    units=[dict(name="table", harness="t_table", files=["common_", "c11_"], run="TestVerifC11",
-                shards=dict(quick=16, thorough=16), timeout_s=dict(quick=900, thorough=7200))],
-)
-
-PROPS["C10"] = dict(
-    level="exploration",
-    level_text="Differential runtime monitor at function level: random policy programs are loaded into a real RoutingPolicy through the "
-               "configuration path, read back (GetDefinedSet/GetPolicy/GetStatement/GetPolicyAssignment and the API conversion) and executed with "
-               "RoutingPolicy.ApplyPolicy on random routes; verdict and resulting attributes are compared with an independent interpreter of "
-               "docs/sources/policy.md that works on the configuration structs, and the stored route / earlier per-peer results are snapshotted "
-               "(serialised attributes, NLRI, next hop, slice backing arrays up to capacity) around every evaluation. Exploration is the right level: "
-               "the space of programs x routes is unbounded; the generator covers every documented condition and action type under every option.",
-    level_note="Trusts Go's regexp as the meaning of a configured pattern. Where policy.md / the oc struct comments leave the outcome open the "
-               "interpreter reports 'ambiguous' and the comparison is skipped (counted per reason under amb:*), see assumptions. The daemon-level "
-               "confirmation (ListPath / per-peer wire view) is a separate unit.",
-    technique="runtime differential monitor (ApplyPolicy vs. documented-model interpreter) + snapshot/compare non-interference monitor + configuration read-back comparison",
-    rule="case = one program (1-3 defined sets per type, 1-4 policies x 1-4 statements with 0-5 of the 15 condition types and any subset of the 8 "
-         "modification actions + disposition, assignments for global and two neighbours, both directions, defaults ''/accept/reject) x 20 routes "
-         "(v4/v6, local/internal/external, all attributes, slices with cap>len) x 2 evaluations (different assignment/direction/peer); an evaluation "
-         "is non-trivial iff at least one statement applied or the default decided after at least one statement was evaluated; distinct by "
-         "(condition types of the applied statements, actions applied, decided-by, verdict)",
-    assumptions=["conditions of later statements see the route as modified by earlier applied statements (policy.md: the action is applied before the route proceeds to the next step)",
-                 "the neighbor of a neighbor-set condition / peer-address is the peer the evaluation is for: the source on import, the destination on export, as pkg/server fills PolicyOptions.Info",
-                 "a plain value in a community/ext-community/large-community set or remove list means exactly that value; anything else is a Go regexp searched in the canonical text",
-                 "AS_PATH text is Quagga style (sequence 'a b', set '{a,b}', confed '(a b)' / '[a,b]'); '_' abbreviates (^|[,{}() ]|$) for every as-path-list entry, including the single-AS forms",
-                 "only transitive extended communities take part in matching (RFC 7153); order of (ext/large) communities is not significant; an empty list equals an absent attribute; "
-                 "AS_PATH segmentation of a sequence is not significant",
-                 "left open by the documents and therefore skipped: MED +/- on a route without MED or leaving 0..2^32-1; last-as without leading AS_SEQUENCE; next-hop of another family; "
-                 "next-hop unchanged / next-hop-in after an earlier next-hop action; self/peer-address without peer info; neighbor condition without neighbor; invert on a prefix set of "
-                 "the other family; routes shorter than a prefix-list entry whose range reaches below its length; as-path-length with AS_SET/confed segments; local-pref-eq 100 without LOCAL_PREF; "
-                 "an assignment id that was never configured; empty sets other than the neighbor set"],
-    must_count=["programs", "compared", "snapshots_compared", "readback_statements", "readback_assignments", "dir:import", "dir:export",
-                "assignment:global", "assignment:neighbor", "family:ipv4-unicast", "family:ipv6-unicast",
-                "decided_by:statement:accept", "decided_by:statement:reject", "decided_by:default:accept", "decided_by:default:reject",
-                "cond_true:prefix", "cond_true:neighbor", "cond_true:as-path", "cond_true:community", "cond_true:ext-community", "cond_true:large-community",
-                "cond_true:as-path-length", "cond_true:community-count", "cond_true:origin", "cond_true:route-type", "cond_true:rpki", "cond_true:afi-safi-in",
-                "cond_true:next-hop", "cond_true:local-pref-eq", "cond_true:med-eq",
-                "action:community:add", "action:community:remove", "action:community:replace", "action:ext-community:add", "action:ext-community:remove",
-                "action:ext-community:replace", "action:large-community:add", "action:large-community:remove", "action:large-community:replace",
-                "action:med:replace", "action:med:add", "action:med:sub", "action:local-pref", "action:origin", "action:as-path-prepend:asn",
-                "action:as-path-prepend:last-as", "action:next-hop:address", "action:next-hop:self", "action:next-hop:unchanged", "action:next-hop:peer-address"],
-    units=[dict(name="table", harness="t_table", files=["common_", "c10_"], run="TestVerifC10",
-                shards=dict(quick=16, thorough=16), timeout_s=dict(quick=900, thorough=7200))],
-)
-
-PROPS["C03"] = dict(
-    level="exploration",
-    level_text="Runtime monitor of the real Loc-RIB code (TableManager.Update -> destination.Calculate/insertSort, GetBestPath, GetMultiBestPath, Update.GetChanges) "
-               "against an independent reference of the documented decision process (sequential elimination over the whole candidate set). Small-scope exhaustive "
-               "inside each case: every permutation of the arrival order of the 2-5 candidates, 20 replace/withdraw interleavings ending in the same set, every "
-               "pair and triple of routes for comparator sanity; exploration across cases: candidate sets are drawn from a grid built to tie at every step, "
-               "under all 16 combinations of always-compare-med / ignore-as-path-length / external-compare-router-id / use-multiple-paths.",
-    level_note="Where the documentation leaves a choice (confederation-member routes in the age/router-id steps, router-id between equally old eBGP routes, "
-               "neighbouring AS of a path starting with AS_SET, age between local routes) the union over all readings is accepted; with MED not comparable across "
-               "the candidates only membership in the admissible set (decision-process winner or winner of a pairwise tournament in some order) is required and "
-               "order independence is not asserted. ORIGINATOR_ID/CLUSTER_LIST, IGP cost, weight, route-server views and sets larger than 5 are not exercised.",
-    technique="runtime differential monitor (reference decision process + metamorphic order-independence + comparator total-preorder check) over generated candidate sets",
-    rule="case = one candidate set of 2-5 routes from distinct sources (local, eBGP, iBGP, confederation member; optional earlier versions and transient routes), "
-         "run through all arrival permutations (<=120), 20 interleavings and all ordered pairs, under the option combination case_index mod 16; non-trivial iff a "
-         "reachable best exists and at least one step eliminated a candidate; distinct by (option combination, multiset of source kinds, sequence of deciding steps)",
-    assumptions=["the documented order is the one in the property text / the comment in insertSort; confederation members are internal for eBGP-over-iBGP (RFC 5065, compareByASNumber comment)",
-                 "router-id is the BGP identifier of the sending peer (no ORIGINATOR_ID)",
-                 "SelectionOptions/UseMultiplePaths are process globals: cases run sequentially, 16 shards = 16 option combinations"],
-    must_count=["candidate_sets", "arrival_orders", "interleavings", "pairs_observed", "triples_observed", "multipath_sets_with_several_members",
-                "sets_med_comparable", "sets_med_not_comparable", "decided_at_med", "decided_at_age-routerid", "decided_at_neighbor-addr",
-                "palette_confed+ibgp", "getchanges_streams_checked"],
-    units=[dict(name="table", harness="t_table", files=["common_", "c03_"], run="TestVerifC03",
-                shards=dict(quick=16, thorough=16), timeout_s=dict(quick=600, thorough=5400))],
+PROPS["C06"] = dict(
+    level="fault_enumeration",
+    level_text="Fault enumeration at two layers. Layer 1 runs gobgp's real receive loop (fsmHandler.recvMessageloop: recvMessageWithError -> ParseBGPBody -> "
+               "ValidateUpdateMsg -> handlingError -> NOTIFICATION or callback, then table.ProcessMessage as peer.handleUpdate calls it) on UPDATEs laid out "
+               "octet by octet by the harness: 40 well-formed base UPDATEs (v4, v6 MP_REACH, mixed, withdraw-only, optional attributes, ADD-PATH) x a "
+               "catalogue of 129 faults (per attribute: bad length short/long/zero, bad flags, bad value, duplicate, missing mandatory; attribute block and "
+               "message framing; NLRI syntax) x every index of the faulty attribute x {eBGP, iBGP, confederation} x treat-as-withdraw on/off, plus pairs of "
+               "faults. Layer 2 repeats every catalogue entry end to end (whole BgpServer in virtual time, injecting speaker + listening third speaker; "
+               "observed: NOTIFICATION octets, session state, ListPath ADJ_IN / GLOBAL, the third speaker's accumulated view). Oracle: an allowed-set table "
+               "written from RFC 7606 s3-s7, RFC 4271 s6.3, RFC 4760 s7, RFC 5065 s5, RFC 6793 s6, RFC 8092, plus metamorphic relations (monotonicity under "
+               "a second fault, position independence, no penalty for base UPDATEs in every attribute rotation) and end-effect checks (after treat-as-withdraw "
+               "every named prefix is gone; no installed route carries the injected attribute or lacks ORIGIN / AS_PATH / next hop).",
+    level_note="Fault enumeration is the right level: the property quantifies over a finite catalogue x positions x pairs x configurations, which is enumerated "
+               "rather than sampled at layer 1. Trusts the harness' reading of the RFCs (the table accepts every outcome a MAY/SHOULD or two overlapping RFC 7606 "
+               "rules permit). Sessions negotiate four-octet AS numbers (no AS_TRANS / 2-octet peers), ipv4-unicast + ipv6-unicast only, no extended messages. "
+               "treat-as-withdraw 'off' is set white-box in the peer configuration before the session establishes (the API cannot express it); the TOML "
+               "configuration path is not exercised.",
+    technique="runtime monitor of the real receive loop (layer 1) and of a whole server in virtual time (layer 2) over an enumerated fault catalogue; reference "
+              "allowed-set table + metamorphic relations + end-effect checks",
+    rule="layer-1 case = (base, fault) over every attribute index x 6 sessions, or a pair of faults at PRNG indices x 6 sessions together with its two single-fault "
+         "messages; layer-2 case = one session (prelude of valid routes, one faulty UPDATE, observation at quiescence). Non-trivial iff an independent framing "
+         "reader finds every injected fault in the octets sent; distinct by (layer, fault ids, base, positions, peer type, treat-as-withdraw)",
+    exhaustive_note="Enumerated completely (both tiers): at layer 1 every single fault of the catalogue x every base UPDATE x every attribute index x {eBGP, iBGP, "
+                    "confederation} x treat-as-withdraw {on, off} (ADD-PATH on/off follows the base), and every base x every rotation of its attributes x the 6 "
+                    "sessions; at layer 2 every (catalogue entry, peer type, treat-as-withdraw) once and every base once per peer type. Thorough additionally "
+                    "enumerates every unordered pair of catalogue entries x every base x 6 sessions at layer 1 (attribute indices PRNG-drawn). Sampled: fault "
+                    "pairs at layer 1 in the quick tier (5000 PRNG (base, pair) draws x 6 sessions), base / index choice and all pairs at layer 2.",
+    assumptions=["reactions are ordered none < attribute discard < treat-as-withdraw < session reset; AFI/SAFI disable (RFC 4760 s7) is admitted wherever a reset is",
+                 "RFC 7606 s3.c names the Optional and Transitive bits only: a wrong Partial bit may be ignored, treated as withdraw or reset",
+                 "where RFC 7606 s3.c and s3.f overlap (flag errors of ATOMIC_AGGREGATE / AGGREGATOR) discard and treat-as-withdraw are both admitted",
+                 "LOCAL_PREF / ORIGINATOR_ID / CLUSTER_LIST from a confederation-external member: both readings of 'external neighbor' admitted",
+                 "RFC 4271 s6.3 leftmost-AS check is a MAY: accepting the route is admitted; a loopback NEXT_HOP may be accepted",
+                 "an attribute that overruns the attribute block hides MP_REACH/MP_UNREACH attributes behind it (RFC 7606 s5.1): their prefixes are then not required to be withdrawn",
+                 "with revised handling off, RFC 6793's discard of malformed AS4_PATH / AS4_AGGREGATOR and a reset are both admitted",
+                 "a withdraw-only message cannot tell none / discard / treat-as-withdraw apart end to end: any of them is accepted there"],
+    must_count=["l1_single_evaluations", "l1_pair_evaluations", "l1_base_evaluations", "l1_position_groups", "l2_sessions", "l2_base_sessions", "l2_pair_sessions",
+                "l2_third_peer_checks", "l1_peer_ebgp", "l1_peer_ibgp", "l1_peer_confed", "l1_taw_on", "l1_taw_off", "l2_peer_ebgp", "l2_peer_ibgp",
+                "l2_peer_confed", "l2_taw_on", "l2_taw_off", "l1_addpath_sessions", "l2_addpath_sessions", "l1_react_reset", "l1_react_taw", "l1_react_discard",
+                "l2_react_reset", "l2_react_taw", "l2_react_discard", "catalogue_entries"],
+    min_nontrivial=1000,
+    units=[dict(name="server", harness="t_server", files=["sim_", "c06_"], run="TestVerifC06",
+                shards=dict(quick=16, thorough=16), timeout_s=dict(quick=1200, thorough=10800))],
 )
